@@ -80,7 +80,7 @@ func queries(n int) []string {
 var readCalls = []string{"Stat", "Lstat", "ReadFile", "ReadDir", "EvalSymlinks", "Readlink"}
 
 func mutCalls(p string, i int) []fsx.Op {
-	switch i % 19 {
+	switch i % 20 {
 	// the queried path as the destination (Rename, Link, Symlink, Mkdir and O_EXCL see the link
 	// itself; plain O_CREATE and WriteFile go through it)
 	case 9:
@@ -103,8 +103,11 @@ func mutCalls(p string, i int) []fsx.Op {
 		return []fsx.Op{{K: "Chown", P: p, Uid: 1001, Gid: 1002}}
 	case 18:
 		return []fsx.Op{{K: "Open", P: p, Flag: os.O_RDWR | os.O_CREATE, Perm: 0o644, H: 0}, {K: "FWrite", H: 0, Data: "c"}, {K: "FClose", H: 0}}
+	case 19:
+		// the working directory set through a handle opened by way of links is the directory reached, not the spelling
+		return []fsx.Op{{K: "Open", P: p, Flag: os.O_RDONLY, H: 1}, {K: "FChdir", H: 1}, {K: "Getwd"}, {K: "Stat", P: "x"}, {K: "Stat", P: ".."}, {K: "ReadDir", P: ".."}, {K: "Chdir", P: "/"}, {K: "FClose", H: 1}}
 	}
-	switch i % 19 {
+	switch i % 20 {
 	case 0:
 		return []fsx.Op{{K: "Chmod", P: p, Perm: 0o600}}
 	case 1:
@@ -272,6 +275,7 @@ func TestCheck(t *testing.T) {
 			cs.Ops = append(cs.Ops, mutCalls("/w/l1", 0)...)
 			cs.Ops = append(cs.Ops, mutCalls("/w/l1", 14)...)
 			cs.Ops = append(cs.Ops, mutCalls("/w/l1", 9)...)
+			cs.Ops = append(cs.Ops, mutCalls("/w/l1", 19)...)
 			if dev := runCase(c, kt, cs); dev != nil {
 				dev.Fields["chain"] = chainClass(k)
 				c.Report(dev, cs)
@@ -340,7 +344,7 @@ func TestCheck(t *testing.T) {
 			}
 			var ops []fsx.Op
 			if rapid.IntRange(0, 3).Draw(t, "mut") == 0 {
-				ops = mutCalls(p, rapid.IntRange(0, 18).Draw(t, "which"))
+				ops = mutCalls(p, rapid.IntRange(0, 19).Draw(t, "which"))
 			} else {
 				ops = []fsx.Op{{K: rapid.SampledFrom(readCalls).Draw(t, "call"), P: p}}
 			}
